@@ -47,6 +47,8 @@ def run(tier):
         # snippet that failed to compile, after a caught import of a module that does not compile, or after a snippet
         # that died with an uncaught error
         before = rng.choice([None, None, None, "compile_error", "broken_import", "uncaught"])
+        if len(body) == 1 and body[0] in churn.VANISH:
+            before = None
         steps = [snip(src), ("stats",)]
         mods = []
         if before == "compile_error":
@@ -57,7 +59,9 @@ def run(tier):
             src = src.replace("for i in 0..N {", "try { import \"c16broken\" as bb; } catch e { total = 0; }\nfor i in 0..N {", 1)
             steps = [snip(src), ("stats",)]
             mods = [("c16broken", "var x = ;\n")]
-        for mult in (1, 2):
+        # bodies with a list of kinds that must be gone after the loop (churn.VANISH) also run with no iteration at all
+        mults = (0, 1, 2) if len(body) == 1 and body[0] in churn.VANISH and before is None else (1, 2)
+        for mult in mults:
             cid = "c%d:%d" % (pi, mult)
             meta[cid] = (body, keep, n * mult, src)
             cases.append(mk_case(cid, steps, {"gc": "default", "trace": 1, "dropcheck": 1}, mods,
@@ -101,6 +105,15 @@ def run(tier):
         a, b = by.get("c%d:1" % pi), by.get("c%d:2" % pi)
         if a is None or b is None:
             continue
+        z = by.get("c%d:0" % pi)
+        if z is not None:
+            body, keep, n, src = meta["c%d:1" % pi]
+            ck.count("census_against_no_iterations")
+            left = {k: (z.get(k, 0), a.get(k, 0)) for k in churn.VANISH[body[0]] if a.get(k, 0) != z.get(k, 0)}
+            if left:
+                ck.violation("UnreachableRetained(%s)" % ",".join(sorted(left)),
+                             {"body": body, "keep": keep, "N": n, "source": src,
+                              "what": "objects of kinds the program cannot reach after the loop (none vs n iterations): %s" % left})
         ck.count("iteration_doubling_pairs")
         # the range cache (8 entries, evicted by insertion time stamps) makes the number of live
         # ObjRange objects vary by up to the cache size from run to run: that is bounded, not growth
